@@ -788,7 +788,7 @@ def scan_guards(repo, consts, flags):
         g['conversion_cycle_guard'] = bool(re.search(
             r'if \(larger\.has_commodity\(\)\) for \(const commodity_t \* comm = &smaller\.commodity\(\); ; \) \{ '
             r'if \((?:\*comm == larger\.commodity\(\)|comm->referent\(\) == larger\.commodity\(\)\.referent\(\))\) throw_ ?\(amount_error,[^;]*\); if \(! comm->smaller\(\)\) break; '
-            r'comm = &comm->smaller\(\)->commodity\(\); \} larger \*= smaller\.number\(\);', body))
+            r'comm = &comm->smaller\(\)->commodity\(\); \} (?:if \(smaller\.has_commodity\(\)\) for \([^{]*\{[^}]*\} )?larger \*= smaller\.number\(\);', body))
     g['conversion_cycle_by_referent'] = bool(g['conversion_cycle_guard'] and pcv and
                                              'comm->referent() == larger.commodity().referent()' in body)
     # op.h / op.cc: compile() and calc() refuse to recurse deeper than MAX_DEPTH
@@ -845,6 +845,35 @@ def scan_guards(repo, consts, flags):
         r"for \(int i = 1; i < index && tmpl_elem; i\+\+\) \{ tmpl_elem = tmpl_elem->next\.get\(\); "
         r"while \(tmpl_elem && tmpl_elem->type != element_t::EXPR\) tmpl_elem = tmpl_elem->next\.get\(\); \} "
         r"if \(! tmpl_elem\) throw_ ?\(format_error,[^;]*\); \*current = \*tmpl_elem; break; \}", fm))
+    # journal.cc expand_aliases: in both branches the name that is looked up in account_aliases is the
+    # name that is tested against and recorded in already_seen (the loop's variant)
+    jc = norm(strip_comments(open(os.path.join(src, 'journal.cc'), errors='replace').read()))
+    g['alias_records_what_it_looks_up'] = bool(re.search(
+        r'bool keep_expanding = true; std::list<string> already_seen; do \{ if \(account_aliases\.size\(\) > 0\) \{ '
+        r'accounts_map::const_iterator i = account_aliases\.find\(name\); if \(i != account_aliases\.end\(\)\) \{ '
+        r'if \(std::find\(already_seen\.begin\(\), already_seen\.end\(\), name\) != already_seen\.end\(\)\) \{ throw_ ?\(std::runtime_error,[^;]*\); \} '
+        r'already_seen\.push_back\(name\); result = \(\*i\)\.second; name = result->fullname\(\); \} else \{ '
+        r'size_t colon = name\.find\(\':\'\); if \(colon != string::npos\) \{ string first_account_name = name\.substr\(0, colon\); '
+        r'accounts_map::const_iterator j = account_aliases\.find\(first_account_name\); if \(j != account_aliases\.end\(\)\) \{ '
+        r'if \(std::find\(already_seen\.begin\(\), already_seen\.end\(\), first_account_name\) != already_seen\.end\(\)\) \{ throw_ ?\(std::runtime_error,[^;]*\); \} '
+        r'already_seen\.push_back\(first_account_name\); result = find_account\(\(\*j\)\.second->fullname\(\) \+ name\.substr\(colon\)\); '
+        r'name = result->fullname\(\); \} else \{ keep_expanding = false; \} \} else \{ keep_expanding = false; \} \} \} else \{ keep_expanding = false; \} '
+        r'\} while ?\(keep_expanding && recursive_aliases\);', jc))
+    # the repairs proposed for F54, F55, F56 (false while they are not in the source)
+    dc = norm(strip_comments(open(os.path.join(src, 'draft.cc'), errors='replace').read()))
+    g['draft_cost_post_guard'] = bool(re.search(
+        r'else if \(arg == "@" \|\| arg == "@@"\) \{ if \(! post\) \{ if \(tmpl->posts\.empty\(\)\) throw std::runtime_error\([^;]*\); '
+        r'post = &tmpl->posts\.back\(\); \} amount_t cost; post->cost_operator = arg;', dc))
+    txc = norm(strip_comments(open(os.path.join(src, 'textual.cc'), errors='replace').read()))
+    g['include_self_guard'] = bool(re.search(
+        r'if \(glob\.match\(base\)\) \{ for \(instance_t \* instance = this; instance; instance = instance->parent\) '
+        r'if \(! instance->context\.pathname\.empty\(\) && exists\(instance->context\.pathname\) && '
+        r'filesystem::equivalent\(instance->context\.pathname, \*iter\)\) throw_ ?\(std::runtime_error,[^;]*\); journal_t \* journal = context\.journal;', txc))
+    acn = norm(ac)
+    g['conversion_larger_chain_guard'] = bool(g['conversion_cycle_guard'] and re.search(
+        r'if \(smaller\.has_commodity\(\)\) for \(const commodity_t \* comm = &larger\.commodity\(\); ; \) \{ '
+        r'if \(comm->referent\(\) == smaller\.commodity\(\)\.referent\(\)\) throw_ ?\(amount_error,[^;]*\); if \(! comm->larger\(\)\) break; '
+        r'comm = &comm->larger\(\)->commodity\(\); \} larger \*= smaller\.number\(\);', acn))
     # (d) the period parser rejects `every 0 <unit>`
     tc = strip_comments(open(os.path.join(src, 'times.cc'), errors='replace').read())
     m = re.search(r'case\s+lexer_t::token_t::TOK_EVERY\s*:(.*?)case\s+lexer_t::token_t::TOK_YEARS', tc, re.S)
@@ -938,6 +967,12 @@ def generate(repo):
           'Definition src_conversion_cycle_by_referent : bool := %s.' % bl(g['conversion_cycle_by_referent']),
           'Definition src_calc_depth_limit : option Z := %s.' % opt(g['calc_depth_limit']),
           'Definition src_format_width_limit : option Z := %s.' % opt(g['format_width_limit']),
+          '(* the repairs proposed for F54 F55 F56: false while they are not in the source *)',
+          'Definition src_draft_cost_post_guard : bool := %s.' % bl(g['draft_cost_post_guard']),
+          'Definition src_include_self_guard : bool := %s.' % bl(g['include_self_guard']),
+          'Definition src_conversion_larger_chain_guard : bool := %s.' % bl(g['conversion_larger_chain_guard']),
+          '(* journal.cc expand_aliases: each branch records in already_seen the name it looked up (Model/Aliases.v) *)',
+          'Definition src_alias_records_what_it_looks_up : bool := %s.' % bl(g['alias_records_what_it_looks_up']),
           '(* format.cc parse_elements `%$N`: template / index / null tests exactly as modelled in Model/FormatRef.v *)',
           'Definition src_format_field_ref_guard : bool := %s.' % bl(g['format_field_ref_guard']),
           '(* utils.h: assert(x) throws assertion_failed (NO_ASSERTS 0 unless DISABLE_ASSERTS) *)',
